@@ -8,7 +8,7 @@ from concurrent.futures import ThreadPoolExecutor
 from .. import core, tlc
 from ..tlaparse import to_json
 
-INVS = ['CodeWins', 'EnvBacksDocumented', 'AbsentOtherwise', 'ExclusionWins', 'AppIffIncludedOrRoot', 'SameEitherWay', 'FunctionsAreCalled', 'ShortIsSuffix']
+INVS = ['CodeWins', 'EnvBacksDocumented', 'AbsentOtherwise', 'ExclusionWins', 'AppIffIncludedOrRoot', 'SameEitherWay', 'FunctionsAreCalled', 'ShortIsSuffix', 'RootCodeWins']
 
 
 def probe(case):
@@ -56,6 +56,19 @@ CONSUMER_VALUES = {
     'SERVICE_URL': ({'SERVICE_URL': 'host1:1234'}, {'SERVICE_URL': 'host1:1234'}, {'DEEP_SERVICE_URL': 'host1:1234'}),
     'APP_ROOT': ({'APP_ROOT': '/x/app'}, {'APP_ROOT': '/x/app'}, {'DEEP_APP_ROOT': '/x/app'}),
 }
+
+
+def root_case(case):
+    pc = {'kind': 'app_root_src', 'code': {}, 'env': {}}
+    if case['code'] == 'value':
+        pc['code']['APP_ROOT'] = '/x/from_code'
+    if case['env'] == 'text':
+        pc['env']['DEEP_APP_ROOT'] = '/x/from_env'
+    res = probe(pc)
+    if 'error' in res:
+        return 'deep.start raised %s' % res['error']
+    return {'/x/from_code': 'code', '/x/from_env': 'env_text', res.get('computed'): 'computed'}.get(
+        res.get('root'), 'other:%r' % (res.get('root'),))
 
 
 def consumer_case(case):
@@ -171,13 +184,15 @@ def run(c):
               'against is_app_frame; non-trivial = an environment or non-default form / a non-empty prefix list')
     c.assumptions = ['sys.exec_prefix is only part of the exclude list when IN_APP_EXCLUDE is not given in code',
                      'grpc.insecure_channel / secure_channel are replaced by recorders in the probe interpreter']
-    r = c.mc('ConfigResolve', dict(invariants=INVS, deadlock=False), label='three tables', dump=True, coverage=False)
+    r = c.mc('ConfigResolve', dict(invariants=INVS, deadlock=False), label='four tables', dump=True, coverage=False)
     states = [to_json(s) for s in r.graph.states.values()]
     c.exhaustive = True
     lookups = [s for s in states if s['table'] == 'lookup']
     consumers = [s for s in states if s['table'] == 'consumer']
     paths = [s for s in states if s['table'] == 'path']
+    roots = [s for s in states if s['table'] == 'root']
     with ThreadPoolExecutor(12) as ex:
+        rres = list(ex.map(lambda s: root_case(s['case']), roots))
         lres = list(ex.map(lambda s: lookup_case(s['case']), lookups))
         cres = list(ex.map(lambda s: consumer_case(s['case']), consumers))
     for s, got in zip(lookups, lres):
@@ -187,6 +202,14 @@ def run(c):
             path = c.save_replay({'direction': 'S2C', 'module': 'ConfigResolve', 'table': 'lookup', 'case': s['case'],
                                   'got': got, 'expected': s['expected']['src']})
             c.violation('lookup %s resolved from %s, expected %s' % (s['case'], got, s['expected']['src']), path)
+    for s, got in zip(roots, rres):
+        c.traces_validated += 1
+        c.note_case(key=('root', str(s['case'])), nontrivial=True)
+        if got != s['expected']['src']:
+            path = c.save_replay({'direction': 'S2C', 'module': 'ConfigResolve', 'table': 'root', 'case': s['case'],
+                                  'got': got, 'expected': s['expected']['src']})
+            c.violation('deep.start() with APP_ROOT %s took the application root from %s, expected %s'
+                        % (s['case'], got, s['expected']['src']), path)
     for s, got in zip(consumers, cres):
         c.traces_validated += 1
         c.note_case(key=('consumer', str(s['case'])), nontrivial=True)
